@@ -161,7 +161,7 @@ Proof. exact (diteration_ok n indptr indices data scores fluid damping n_iter to
 Print Assumptions diteration_terminates.
 
 (** push_pagerank: in bounds for EVERY fuel. Contract: both CSR patterns well-formed, degrees and seeds
-    of length n, the argsort answer lists node indices. Termination of the work-list loop is NOT claimed. *)
+    of length n, the argsort answer lists node indices. (Termination of the work-list loop within 2n pops is proved in section 9.4: push_terminates.) *)
 Theorem push_pagerank_safe fuel n degrees indptr indices rev_indptr rev_indices (seeds : list Q)
         damping tol argsort :
   csr_pat_wf n indptr indices -> csr_pat_wf n rev_indptr rev_indices ->
